@@ -33,6 +33,7 @@ static rc::Gen<std::string> num_gen(int lo, int hi) {
     else if (style == 1) snprintf(b, sizeof b, "%03d", v);
     else snprintf(b, sizeof b, "%d", v);
     if (!g_valid_only && *vf::range<int>(0, 40) == 0) return std::string("99999999999999999999");
+    if (!g_valid_only && *vf::range<int>(0, 30) == 0) { char w[32]; snprintf(w, sizeof w, "%lld", 4294967296LL * *vf::range<int>(1, 2) + v); return std::string(w); }  // in range only modulo 2^32
     if (!g_valid_only && *vf::range<int>(0, 40) == 0) return std::string("");
     return b;
   });
